@@ -13,6 +13,7 @@ import ALV.Lemmas.C17Wait
 import ALV.Lemmas.C17FineLive
 import ALV.Lemmas.C17Rec
 import ALV.Lemmas.C17Spec
+import ALV.Lemmas.C17Mix
 import ALV.Common.Audit
 
 namespace ALV.Props.C17
@@ -1017,6 +1018,170 @@ example : let s := C17Rec.run C17Rec.init [.record 3, .take 0 4, .record 2, .tak
       s.recs.map (·.out) = [[1000, 1001, 1002, 1003, 1004, 1005], [2000, 2001]] ∧
       s.recs.map (·.reads) = [2, 1] ∧ s.recs.map (·.closes) = [1, 1] ∧ s.recordings = [] ∧
       s.terminated = 1) := by decide
+
+/-! ### recordings, a failing `pa.open` and a raising `terminate()` in the SAME history as the players
+
+`ALV.Model.C17Mix`: a layer over the coarse system.  Between the coarse calls the control thread may
+call `io.record(…)` (one backend call, `pa.open(input=True)`) and `io.play(…)` on a backend whose
+`pa.open` raises for that call (`with self.lock`, `go.set()`, `pa.open` raises, the lock is released
+by the exception); `close()` drains `_recordings` (one `file_obj.close()` each, the last one first)
+between its loop over `_threads` and `terminate()`; `terminate()` may raise.  The tie (`entry = "mix"`)
+runs such histories on the real code under the scheduler and compares step by step. -/
+
+/-- schedules of the mixed system, as lists of numbers (n+1 = the player whose thread object has
+index n: here no `pa.open` fails before a player is created, so player n) -/
+def mixRun (xc : XCfg) (script : List XCmd) (l : List Nat) : XState := (runSchedX xc (initX script) (mkSched l)).1
+
+/-- **C17.24 mix_refines** — every step of the mixed system is a step of the coarse system or leaves
+the coarse state alone, so the coarse state of ANY reachable state of the mixed system is reachable in
+the coarse system with the coarse calls of the script: every safety theorem above (`delivered_is_spec`,
+`terminate_once`, `closed_after`, `backend_protocol`, `lock_order`, …) holds with recordings, failing
+opens and a raising terminate in the history. -/
+theorem mix_refines {xc : XCfg} {script : List XCmd} {x : XState} (h : ReachX xc script x) :
+    Reach xc.cfg (projScript script) x.base ∧
+    (∀ (t : Tid) (x' : XState), stepX xc x t = some x' →
+      x'.base = x.base ∨ step xc.cfg x.base t = some x'.base) :=
+  ⟨mix_reach h, fun t x' hs => stepX_base xc x x' t hs⟩
+
+/-- **C17.24b mix_delivered** — delivery with both kinds of stream active: every player's device
+stream holds a prefix of `chunksSpec`, all of it once the player left its loop un-stopped. -/
+theorem mix_delivered {xc : XCfg} {script : List XCmd} {x : XState} (h : ReachX xc script x)
+    (k : Nat) (p : Player) (hp : x.base.players[k]? = some p) (hcs : 0 < p.cs) :
+    p.written <+: chunksSpec p.cs p.audio ∧
+    (afterLoop p.pc = true → p.halting = false → p.fail = false →
+      p.written = chunksSpec p.cs p.audio) :=
+  ⟨(delivered_is_spec (mix_reach h) k p hp hcs).1, (delivered_is_spec (mix_reach h) k p hp hcs).2.1⟩
+
+/-- **C17.25 mix_closed_after** — "afterwards every device stream is closed, the backend is terminated
+exactly once", with recordings AND player threads in the same history, whatever the schedule: once the
+backend has been terminated (only `close` does that, after its two loops) every player's stream is
+closed and its thread past all backend calls (`closedAfter`), EVERY recording stream's device stream
+was closed exactly once (`recsClosed`), `_threads` is empty, the backend was terminated exactly once —
+whether or not `terminate()` raised — and no backend call was refused. -/
+theorem mix_closed_after {xc : XCfg} {script : List XCmd} {x : XState} (h : ReachX xc script x)
+    (ht : 1 ≤ x.base.terminated) :
+    closedAfterX x = true ∧ x.base.terminated = 1 ∧ x.base.perr = false ∧
+    (∀ r ∈ x.recs, r.closes = 1) := by
+  have hr := mix_reach h
+  have hc := closedAfter_of_terminated hr ht
+  have hrc := recsClosed_of_terminated h ht
+  refine ⟨by unfold closedAfterX; rw [hc, hrc]; rfl, ?_, backend_protocol hr, ?_⟩
+  · have := terminate_once hr; omega
+  · unfold recsClosed at hrc
+    rw [List.all_eq_true] at hrc
+    intro r hr'; simpa using hrc r hr'
+
+/-- **C17.25b mix_recordings_invariant** — in every reachable state: a recording's device stream is
+closed at most once, and a recording is still listed (not closed) only while the backend is not
+terminated; the lock taken by a failing `play` is held only inside that call. -/
+theorem mix_recordings_invariant {xc : XCfg} {script : List XCmd} {x : XState}
+    (h : ReachX xc script x) :
+    (∀ r ∈ x.recs, r.closes ≤ 1) ∧ (lastActive x.recs = none ∨ x.base.terminated = 0) ∧
+    (x.shadow = true → x.xpc ≠ .idle) :=
+  ⟨(xi_reach h).le1, (xi_reach h).act, (xi_reach h).sh⟩
+
+/-- **C17.26 mix_shutdown** — close with both kinds active, in the words of the property: when the
+mixed script (containing a `close`) has been issued to its end and nobody can move, `close` has
+returned, every player's device stream is closed, every recording's device stream was closed exactly
+once, the backend was terminated exactly once and NO player thread is alive. -/
+theorem mix_shutdown {xc : XCfg} {script : List XCmd} {x : XState} (h : ReachX xc script x)
+    (ht : terminalX xc x = true) (hd : scriptDone x = true) (hc : Cmd.close ∈ projScript script) :
+    (∃ al n, Ev.closeOk al n ∈ x.base.log) ∧ closedAfterX x = true ∧ noneAlive x.base = true ∧
+    x.base.terminated = 1 := by
+  obtain ⟨hterm, hdone⟩ := terminal_of_terminalX h ht hd
+  obtain ⟨h1, _, h3, h4⟩ := after_done (mix_reach h) hterm hdone hc
+  exact ⟨h1, (mix_closed_after h (by omega)).1, h3, h4⟩
+
+/-- two players, a recording opened between the two `play` calls and one before, `wait=True` -/
+def mixXc : XCfg := ⟨⟨true, true, []⟩, false⟩
+def mixScript : List XCmd :=
+  [.ext (.record 2), .base (.play [101, 102, 103] 2), .ext (.record 1), .base (.play [201] 2), .base .close]
+def mixSched : List Nat :=
+  [0, 0,0,0,0,0,0, 0, 0,0,0,0,0, 0,0,0, 1,1,1,1,1,1,1,1,1,1, 0,0,0, 2,2,2,2,2,2,2,2, 0,0,0, 0,0, 0,0]
+
+/-- non-vacuity of `mix_shutdown` / `mix_closed_after`: a complete run; the recordings own device
+streams 0 and 2, the players 1 and 3; `close` closed stream 2 before stream 0 -/
+example : (runSchedX mixXc (initX mixScript) (mkSched mixSched)).2 = [] ∧
+    terminalX mixXc (mixRun mixXc mixScript mixSched) = true ∧
+    scriptDone (mixRun mixXc mixScript mixSched) = true ∧
+    (mixRun mixXc mixScript mixSched).recs.map (fun r => (r.six, r.closes)) = [(0, 1), (2, 1)] ∧
+    (mixRun mixXc mixScript mixSched).six = [1, 3] ∧
+    (mixRun mixXc mixScript mixSched).base.players.map (·.written) = [[[101, 102], [103, 0]], [[201, 0]]] ∧
+    (mixRun mixXc mixScript mixSched).base.terminated = 1 ∧
+    (mixRun mixXc mixScript (mixSched.take 41)).recs.map (·.closes) = [0, 1] := by decide
+
+/-- **C17.27 open_failure_leaves_no_trace** — `pa.open` raising inside `play` (the call is due, the
+manager lock free, the manager not finished): the control thread takes the lock, sets the new thread's
+`go`, `pa.open` raises, the lock is released by the exception — four steps after which the coarse state
+(players, `_threads`, locks, log) is exactly what it was: no thread was created or started, nothing was
+appended to `_threads`, the manager lock is free, only the thread-object count went up; while the lock
+was held, `thread_finished` of every player was blocked, as it is by the manager lock. -/
+theorem open_failure_leaves_no_trace (xc : XCfg) (x : XState) (t : Nat) (rest : List (Nat × XOp))
+    (hx : x.xpc = .idle) (htodo : x.todo = (t, .playFail) :: rest) (hdue : due x.base t = true)
+    (hfree : x.base.mlock = none) (hfin : x.base.finished = false) :
+    ∃ x1 x2 x3 x4, stepMainX xc x = some x1 ∧ stepMainX xc x1 = some x2 ∧ stepMainX xc x2 = some x3 ∧
+      stepMainX xc x3 = some x4 ∧
+      x4.base = x.base ∧ x4.shadow = false ∧ x4.xpc = .idle ∧ x4.todo = rest ∧ x4.recs = x.recs ∧
+      x4.ghosts = x.ghosts + 1 ∧ x4.xlog = x.xlog ++ [(t, .playOpenError)] ∧
+      (∀ y ∈ [x1, x2, x3], y.base = x.base ∧ y.shadow = true ∧
+        ∀ i p, x.base.players[i]? = some p → p.pc = .tfAcq → stepPlayerX xc y i = none) := by
+  refine ⟨{ x with shadow := true, xpc := .fGoSet }, { x with shadow := true, xpc := .fOpen },
+    { x with shadow := true, xpc := .fRel },
+    { x with xpc := .idle, shadow := false, ghosts := x.ghosts + 1, todo := rest,
+             xlog := x.xlog ++ [(t, .playOpenError)] }, ?_, ?_, ?_, ?_, rfl, rfl, rfl, rfl, rfl, rfl, rfl, ?_⟩
+  · simp [stepMainX, hx, htodo, hdue, hfree, hfin]
+  · simp [stepMainX]
+  · simp [stepMainX]
+  · simp [stepMainX, htodo]
+  · intro y hy
+    simp only [List.mem_cons, List.mem_nil_iff, or_false] at hy
+    rcases hy with rfl | rfl | rfl <;>
+      exact ⟨rfl, rfl, fun i p hp hpc => by simp [stepPlayerX, hp, hpc]⟩
+
+/-- non-vacuity: `play ; play (pa.open raises) ; play ; close` — the failing call is issued while the
+first player is at `thread_finished`; it blocks there until the lock is released; the third call's
+thread object has index 2, its device stream index 1 -/
+def failScript : List XCmd :=
+  [.base (.play [101] 2), .ext .playFail, .base (.play [201, 202] 2), .base .close]
+example : let x := mixRun mixXc failScript [0,0,0,0,0,0, 1,1,1,1,1, 0]
+    (x.shadow = true ∧ x.xpc = .fGoSet ∧ pcAt x.base 0 = some .tfAcq ∧
+      enabledX mixXc x (.player 0) = false ∧ enabled mixXc.cfg x.base (.player 0) = true) := by decide
+def failSched : List Nat :=
+  [0,0,0,0,0,0, 1,1,1,1,1, 0,0,0,0, 0,0,0,0,0, 0,0,0, 1,1,1, 0,0,0, 2,2,2,2,2,2,2,2, 0,0,0,0,0]
+example : let x := mixRun mixXc failScript failSched
+    (scriptDone x = true ∧ terminalX mixXc x = true ∧ x.ghosts = 1 ∧ x.tix = [0, 2] ∧ x.six = [0, 1] ∧
+      x.xlog = [(2, .playOpenError)] ∧ x.base.log = [.playOk 0, .playOk 1, .closeOk [false, false] 0] ∧
+      closedAfterX x = true) := by decide
+
+/-- **C17.28 raising_terminate_changes_nothing** — a backend whose `terminate()` raises: the call is
+made all the same, exactly once, after everything else was closed; the exception leaves `close()`
+through `with self.halting` (the lock is released).  No step of any thread depends on it: every
+schedule runs exactly as with a `terminate()` that returns — only the caller of that `close()` sees the
+backend's error instead of a return (`closeRaised`) — so after it every device stream is closed, the
+backend terminated exactly once, a second `close()` does nothing and `play` raises. -/
+theorem raising_terminate_changes_nothing (cfg : Cfg) (script : List XCmd) (sched : List Tid) :
+    runSchedX ⟨cfg, true⟩ (initX script) sched = runSchedX ⟨cfg, false⟩ (initX script) sched ∧
+    (1 ≤ (runSchedX ⟨cfg, true⟩ (initX script) sched).1.base.terminated →
+      closeRaised ⟨cfg, true⟩ (runSchedX ⟨cfg, true⟩ (initX script) sched).1 = true ∧
+      closedAfterX (runSchedX ⟨cfg, true⟩ (initX script) sched).1 = true ∧
+      (runSchedX ⟨cfg, true⟩ (initX script) sched).1.base.terminated = 1 ∧
+      (runSchedX ⟨cfg, true⟩ (initX script) sched).1.base.finished = true ∧
+      (runSchedX ⟨cfg, true⟩ (initX script) sched).1.base.hlock ≠ some .main ∨
+        closeBody (runSchedX ⟨cfg, true⟩ (initX script) sched).1.base.mpc = true) := by
+  refine ⟨runSchedX_termFails cfg true false sched _, fun ht => ?_⟩
+  have hr : ReachX ⟨cfg, true⟩ script (runSchedX ⟨cfg, true⟩ (initX script) sched).1 :=
+    reachX_runSchedX sched ReachX.init
+  obtain ⟨h1, h2, _⟩ := mix_closed_after hr ht
+  by_cases hcb : closeBody (runSchedX ⟨cfg, true⟩ (initX script) sched).1.base.mpc = true
+  · exact Or.inr hcb
+  · refine Or.inl ⟨by simp [closeRaised]; omega, h1, h2, ?_, ?_⟩
+    · have mi := mi_reach (mix_reach hr)
+      cases hf : (runSchedX ⟨cfg, true⟩ (initX script) sched).1.base.finished with
+      | true => rfl
+      | false => have := mi.fin0 hf; omega
+    · intro hh
+      have := ((lk_reach (mix_reach hr)).1 _ hh).2
+      exact hcb this
 
 /-! ### the deadlock of the code as it is (D10) -/
 
